@@ -100,3 +100,39 @@ Definition matching_pkt (d p : Z) (pkt : bytes) : Prop :=
   (pk_seqid pkt < paws_of (d + p) ->
    (pk_flag pkt = c_typeData <-> pk_seqid pkt mod (d + p) < d) /\
    (pk_flag pkt = c_typeData \/ pk_flag pkt = c_typeParity)).
+
+(* ---- encoder histories and the layout specification of one group ---- *)
+Fixpoint enc_run (mk : Z -> Z -> codec) (e : fecenc) (ins : list (bytes * Z)) (rto : Z)
+  : res (fecenc * list (bytes * list bytes)) :=
+  match ins with
+  | [] => Ok (e, [])
+  | (buf, now) :: t =>
+      match enc_encode mk e buf now rto with
+      | Panic w => Panic w
+      | Ok (e1, dp, ps) =>
+          match enc_run mk e1 t rto with
+          | Panic w => Panic w
+          | Ok (e2, outs) => Ok (e2, (dp, ps) :: outs)
+          end
+      end
+  end.
+
+Definition parity_packets (C : codec) (d p : Z) (imgs : list bytes) (g : Z) : list bytes :=
+  map (fun j => grp_packet C d (d + p) imgs g (Z.to_nat d + j)) (seq 0 (Z.to_nat p)).
+
+(* what encode must return for the rest `ins` = (buffer, clock) of a group with shard id g whose
+   first packets have the images `done`; ts = time of the previous packet: every call returns the
+   sealed data packet; the last one also the parity packets unless the last two data packets are
+   >= rto apart (then the parity is skipped, the ids are consumed all the same) *)
+Fixpoint enc_spec (C : codec) (d p g : Z) (done : list bytes) (ts : Z) (ins : list (bytes * Z)) (rto : Z)
+  : list (bytes * list bytes) :=
+  match ins with
+  | [] => []
+  | (buf, now) :: t =>
+      let img := image (skipn 8 buf) in
+      let dpkt := le32 (g * (d + p) + Z.of_nat (length done)) ++ le16 c_typeData ++ img in
+      match t with
+      | [] => [(dpkt, if now - ts <? rto then parity_packets C d p (done ++ [img]) g else [])]
+      | _ => (dpkt, []) :: enc_spec C d p g (done ++ [img]) now t rto
+      end
+  end.
